@@ -1375,16 +1375,17 @@ def target_worker_thread(host: str, port: int, shared_aconf: AuditConf) -> Tuple
     out = OutputBuffer()
     out.verbose = shared_aconf.verbose
     my_aconf = copy.deepcopy(shared_aconf)
-    my_aconf.host = host
-    my_aconf.port = port
 
     # If we're outputting JSON, turn off colors and ensure 'info' level messages go through.
     if my_aconf.json:
         out.json = True
         out.use_colors = False
 
-    out.v("Running against: %s:%d..." % (my_aconf.host, my_aconf.port), write_now=True)
     try:
+        # Note: an invalid port number in the targets file raises ValueError here; this must only affect this target.
+        my_aconf.host = host
+        my_aconf.port = port
+        out.v("Running against: %s:%d..." % (my_aconf.host, my_aconf.port), write_now=True)
         ret = audit(out, my_aconf, print_target=True)
         string_output = out.get_buffer()
     except Exception:
